@@ -29,6 +29,8 @@ def main():
     pid, tier, seed, out = sys.argv[1], sys.argv[2], int(sys.argv[3]), sys.argv[4]
     if tier == 'thorough':
         os.environ.setdefault('VERIF_M_CROSS', '1')
+        # the relational queries of the longest TCP6 lines at LMAX = 112 need minutes on a loaded machine
+        os.environ.setdefault('VERIF_M_QUERY_TIMEOUT_MS', '1500000')
     only = set(sys.argv[5].split(',')) if len(sys.argv) > 5 else None
     t_start = time.time()
     res = {'engine': 'M: mirsym (MIR->SMT symbolic executor, /verif/mirsym) over `rustc +nightly -Zunpretty=mir` of /repo; z3 %s' % z3.get_version_string(),
